@@ -199,6 +199,21 @@ func (w *world) headerFields(e *env, x ast.Expr, prefix string, out map[string]v
 			}
 		}
 		ne := newEnv(finfo)
+		// a parameter that receives (part of) the request value stands for it: `req sgip.Header` ← `b.Header`
+		ne.parent = e
+		idx = 0
+		for _, pf := range fd.Type.Params.List {
+			for _, nm := range pf.Names {
+				if idx < len(v.Args) {
+					if _, isStruct := finfo.ObjectOf(nm).Type().Underlying().(*types.Struct); isStruct {
+						if p, ok := w.fieldPath(e, v.Args[idx]); ok {
+							ne.paths[finfo.ObjectOf(nm)] = p
+						}
+					}
+				}
+				idx++
+			}
+		}
 		tmp := map[string]valExpr{}
 		if !w.headerFields(ne, ret.Results[0], prefix, tmp) {
 			return false
@@ -230,6 +245,44 @@ func (w *world) respSpec(pi pduInfo, getSeq string) string {
 	}
 	unk := fmt.Sprintf(".unknown %s", q(w.pos(fd)))
 	body := fd.Body.List
+	// return p.OtherMethod(): the response is built by another method of the same value, without arguments
+	for depth := 0; depth < 3 && len(body) == 1; depth++ {
+		ret, ok := body[0].(*ast.ReturnStmt)
+		if !ok || len(ret.Results) != 1 {
+			break
+		}
+		c, ok := unparen(ret.Results[0]).(*ast.CallExpr)
+		if !ok || len(c.Args) != 0 {
+			break
+		}
+		fn, r := w.callee(e, c)
+		if fn == nil || r == nil {
+			break
+		}
+		if p, ok := w.fieldPath(e, r); !ok || p != "" {
+			break
+		}
+		mfd := w.funcs[fn]
+		if mfd == nil || mfd.Body == nil || mfd.Recv == nil {
+			break
+		}
+		info = w.infoOf[mfd]
+		e = newEnv(info)
+		if mr := recvObj(info, mfd); mr != nil {
+			e.paths[mr] = ""
+		}
+		body = mfd.Body.List
+	}
+	// v := &T{…}; return v
+	if len(body) == 2 {
+		if as, ok := body[0].(*ast.AssignStmt); ok && as.Tok == token.DEFINE && len(as.Lhs) == 1 && len(as.Rhs) == 1 {
+			if ret, ok := body[1].(*ast.ReturnStmt); ok && len(ret.Results) == 1 && isObj(e, ret.Results[0], info.ObjectOf(as.Lhs[0].(*ast.Ident))) {
+				if un, ok := unparen(as.Rhs[0]).(*ast.UnaryExpr); ok && un.Op == token.AND {
+					body = []ast.Stmt{&ast.ReturnStmt{Results: []ast.Expr{as.Rhs[0]}}}
+				}
+			}
+		}
+	}
 	// optional leading:  id := CONST; switch p.F { case A: id = X; case B: id = Y }
 	var idObj types.Object
 	rcmdByReq := ""
@@ -325,7 +378,7 @@ func (w *world) respSpec(pi pduInfo, getSeq string) string {
 					isSeq = true
 				}
 			}
-		} else if p, ok := w.fieldPath(ve.e, ve.x); ok && ve.e == e && (p == getSeq || (strings.HasPrefix(getSeq, p+".") && p == k)) {
+		} else if p, ok := w.fieldPath(ve.e, ve.x); ok && ve.e.root() == e && (p == getSeq || (strings.HasPrefix(getSeq, p+".") && p == k)) {
 			// the field GetSequenceID returns, or the whole sequence array it indexes copied to the same field
 			isSeq = true
 		}
@@ -362,7 +415,7 @@ func (w *world) seqWords(e *env, fields map[string]valExpr, getSeq string) strin
 	var rows []string
 	for _, f := range keys {
 		ve := fields[f]
-		if ve.e != e && f != arr {
+		if ve.e.root() != e && f != arr {
 			// the value is an expression of an inlined constructor's own scope (e.g. Timestamp(time.Now()))
 			if strings.HasPrefix(f, arr+".") {
 				rows = append(rows, fmt.Sprintf("(%s, none)", f[len(arr)+1:]))
@@ -370,7 +423,7 @@ func (w *world) seqWords(e *env, fields map[string]valExpr, getSeq string) strin
 			continue
 		}
 		if f == arr { // Sequence: p.Header.Sequence — the whole array
-			if p, ok := w.fieldPath(ve.e, ve.x); ok && p == arr && ve.e == e {
+			if p, ok := w.fieldPath(ve.e, ve.x); ok && p == arr && ve.e.root() == e {
 				return "[(0, some 0), (1, some 1), (2, some 2)]"
 			}
 			return "[(0, none), (1, none), (2, none)]"
@@ -760,7 +813,25 @@ func (w *world) genLookupTables() string {
 	sb.WriteString("\n")
 	// priority tables filled in init(): m[K] = V
 	for _, tbl := range []string{"cmppDataCodingPriority", "smppDataCodingPriority"} {
-		rows := w.initAssignments(dc, tbl)
+		// a map literal in the declaration (evaluated before init) followed by `m[K] = V` in init()
+		var rows []string
+		if l, ok := w.mapLiteral(dc, tbl); ok && l != "[]" {
+			rows = append(rows, strings.Split(strings.TrimSuffix(strings.TrimPrefix(l, "["), "]"), "), ")...)
+			for i := range rows {
+				if !strings.HasSuffix(rows[i], ")") {
+					rows[i] += ")"
+				}
+			}
+		}
+		rows = append(rows, w.initAssignments(dc, tbl)...)
+		keys := map[string]bool{}
+		for i, r := range rows {
+			k := strings.SplitN(r, ",", 2)[0]
+			if keys[k] {
+				rows[i] = fmt.Sprintf("(0, 0) /- unsupported: key %s assigned twice -/", strings.TrimPrefix(k, "("))
+			}
+			keys[k] = true
+		}
 		fmt.Fprintf(&sb, "/-- `datacoding.%s` (coding number ↦ priority; smaller is preferred) -/\ndef %s : List (Nat × Nat) := [%s]\n\n", tbl, tbl, strings.Join(rows, ", "))
 	}
 	return sb.String()
